@@ -91,6 +91,8 @@ def series_data(rng, D, P, shape, dom='R', pattern='random', cplx=False, scale=0
     bs = base_sampler(dom)
     for p in range(P):
         x[0, p] = bs(rng, shape, cplx)
+    if P >= 3 and rng.random() < 0.15:
+        x[0, P - 1] = x[0, 0]          # the first base point again after different ones (X, Y, X)
 
     def rnd(size):
         v = rng.normal(size=size)
